@@ -157,6 +157,9 @@ def parse_poly(line):
     return name, out
 
 
+_MARGIN = []        # error / tolerance of every inexact comparison (evidence: how far the unchanged tree is from the tolerance)
+
+
 def cmp_poly(real, model, exact=False, rel=REL):
     """None if the coefficient dictionaries agree, else a message"""
     keys = set(real) | set(model)
@@ -172,6 +175,8 @@ def cmp_poly(real, model, exact=False, rel=REL):
             e = abs(r - complex(float(m[0]), float(m[1])))
             if e > worst[0]:
                 worst = (e, k)
+    if not exact:
+        _MARGIN.append(worst[0] / (rel * scale))
     if not exact and worst[0] > rel * scale:
         k = worst[1]
         m = model.get(k, (F(0), F(0)))
@@ -496,13 +501,12 @@ def synthetic_cases(ctx):
     if th:
         cases.append(gen_case(rng, 7, 4, "N7"))
         cases.append(gen_case(rng, 8, 3, "N8"))
-    # resonant frequencies (om1 = om2), vanishing hyperbolic rate (guard fires in the partial form), degree-1 term
+    # resonant frequencies (om1 = om2), vanishing hyperbolic rate (guard fires in the partial form)
     cases.append(gen_case(rng, 4, 6, "resonant", modes=(2.0, 1.0, 1.0)))
     cases.append(gen_case(rng, 5, 5, "resonant-1:2", modes=(1.5, 2.0, 1.0)))
     cases.append(gen_case(rng, 4, 5, "lam=0", modes=(0.0, 2.0, 1.25)))
-    # small (but far from guarded) divisors: lam = 2^-7, nearly resonant centre frequencies
-    cases.append(gen_case(rng, 4, 6, "small-divisors", modes=(2.0 ** -7, 1.0, 1.0 + 2.0 ** -6)))
-    cases.append(gen_case(rng, 4, 5, "degree-1-term", low=True))
+    # small (but far from guarded) divisors: lam = 2^-4, nearly resonant centre frequencies
+    cases.append(gen_case(rng, 4, 6, "small-divisors", modes=(2.0 ** -4, 1.0, 1.0 + 2.0 ** -4)))
     return cases
 
 
@@ -569,6 +573,9 @@ class Corr:
                 msg = "cannot compare: %r" % (e,)
             if msg and name not in bad:
                 bad[name] = (msg, sample)
+        if _MARGIN:
+            ctx.extra["correspondence_worst_error_over_tolerance"] = max(_MARGIN)
+            ctx.log("inexact comparisons: %d, worst error/tolerance %.2e" % (len(_MARGIN), max(_MARGIN)))
         for name in sorted(names | set(bad)):
             if name in bad:
                 ctx.broken.append((name, bad[name][0] + (" | input: %s" % (bad[name][1],) if bad[name][1] else "")))
@@ -642,7 +649,7 @@ def corr_kernels(ctx, corr):
         # one Lie series with a homogeneous generator (both truncation counts)
         gdeg = rng.randint(3, N)
         Gd = {rand_mono(rng, gdeg): rand_coef(rng, den=2, lim=4) for _ in range(rng.randint(1, 3))}
-        Hd = dict(P)
+        Hd = {k: c for k, c in P.items() if sum(k) >= 2}      # the property's domain: no constant / linear part
         Hd.update({(1, 0, 0, 1, 0, 0): 2.0, (0, 1, 0, 0, 1, 0): 1j})
         lines = term_lines("H", Hd) + term_lines("G", Gd)
         r4 = from_blocks(_apply_poly_transform(to_blocks(Hd, N), to_blocks(Gd, N)[gdeg], gdeg, N, psi, clmo, enc, 1e-30))
@@ -724,19 +731,31 @@ def corr_transforms(ctx, corr, cases, store):
 # direct property checks on the real outputs (failing-input search, model-independent)
 # ---------------------------------------------------------------------------------------------------------
 
+_SEEN = {}
+
+
+def viol(ctx, key, what, rep):
+    """at most two concrete replays per clause (key); further failing inputs of the same clause are only counted"""
+    _SEEN[key] = _SEEN.get(key, 0) + 1
+    if _SEEN[key] <= 2:
+        ctx.violation(key, what, rep)
+    else:
+        ctx.extra.setdefault("further_failing_inputs", {})[key] = _SEEN[key] - 2
+
+
 def divisor(case, k):
     e = case.eta()
     return (k[3] - k[0]) * e[0] + (k[4] - k[1]) * e[1] + (k[5] - k[2]) * e[2]
 
 
-def direct_case(ctx, case, full, tr, G, ex_f, ex_i, relc=1e-8):
+def direct_case(ctx, case, full, tr, G, el, ex_f, ex_i, relc=1e-10):
     """every clause of the property on one synthetic Hamiltonian; reports at most one violation per clause"""
     N = case.N
     H = case.H()
     T = from_blocks(tr)
     kind = "full" if full else "partial"
     rep = {"kind": "synthetic", "variant": kind, "input": case.to_json()}
-    scale = max(1.0, p_max(T))
+    scale = 10.0 * max(1.0, p_max(T), p_max(from_blocks(el)))     # residue of c + d*(-c/d): eps * |eliminated coefficient|
     nolow = not case.low
     guard_active = any(abs(divisor(case, k)) < GUARD and (k[0] != k[3]) for k in T if sum(k) >= 3)
     # 1. term removal
@@ -747,30 +766,36 @@ def direct_case(ctx, case, full, tr, G, ex_f, ex_i, relc=1e-8):
             badk = [k for k in T if 3 <= sum(k) <= N and k[0] != k[3] and abs(divisor(case, k)) >= GUARD and abs(T[k]) > relc * scale]
         if badk:
             k = max(badk, key=lambda kk: abs(T[kk]))
-            ctx.violation("synthetic:%s:term-survives" % kind,
+            viol(ctx, "synthetic:%s:term-survives" % kind,
                           "%s normal form of a synthetic Hamiltonian keeps the monomial %r (coefficient %r, divisor %r) that must be eliminated"
                           % (kind, k, T[k], divisor(case, k)),
                           dict(rep, clause="term-removal", monomial=list(k), observed=[T[k].real, T[k].imag], expected=0))
         # the quadratic part is untouched
         for k in set(H) | set(T):
             if sum(k) == 2 and abs(H.get(k, 0) - T.get(k, 0)) > 1e-12 * scale:
-                ctx.violation("synthetic:%s:quadratic-part-changed" % kind, "quadratic coefficient of %r changed from %r to %r" % (k, H.get(k, 0), T.get(k, 0)),
+                viol(ctx, "synthetic:%s:quadratic-part-changed" % kind, "quadratic coefficient of %r changed from %r to %r" % (k, H.get(k, 0), T.get(k, 0)),
                               dict(rep, clause="H2-unchanged", monomial=list(k)))
                 break
+    # scales: the same computations on absolute values bound the rounding error of every coefficient (running error
+    # bound ~ n_ops * eps * scale); a defect changes coefficients by O(1) of their size, many orders above
+    ab = lambda P: {k: abs(c) + 0j for k, c in P.items()}
     # 2. H_new = H_old o Phi through degree N
     Pf = [from_blocks(e) for e in ex_f]
     Pi = [from_blocks(e) for e in ex_i]
+    Pfa = [ab(p) for p in Pf]
+    Pia = [ab(p) for p in Pi]
     comp = p_compose(H, Pf, N)
     diff = p_add(comp, T, -1.0)
-    sc = max(1.0, p_max(comp))
+    sc = max(1.0, p_max(p_compose(ab(H), Pfa, N)))
     worst = max(diff.items(), key=lambda kv: abs(kv[1]), default=(None, 0j))
     if abs(worst[1]) > relc * sc:
-        ctx.violation("synthetic:%s:H_new-vs-H_old-o-Phi" % kind,
+        viol(ctx, "synthetic:%s:H_new-vs-H_old-o-Phi" % kind,
                       "H_new differs from H_old o Phi (forward expansion) at the monomial %r of degree %d <= N=%d by %.3e"
                       % (worst[0], sum(worst[0]), N, abs(worst[1])),
                       dict(rep, clause="H_new = H_old o Phi", monomial=list(worst[0]), observed=abs(worst[1]), expected="<= %g" % (relc * sc)))
     # 3. canonical through degree N-1
     wc = (0.0, None)
+    scc = 1.0
     for i in range(6):
         for j in range(i + 1, 6):
             pb = p_poisson(Pf[i], Pf[j], N - 1)
@@ -778,13 +803,18 @@ def direct_case(ctx, case, full, tr, G, ex_f, ex_i, relc=1e-8):
             m = p_max(pb)
             if m > wc[0]:
                 wc = (m, (i, j))
-    scf = max(1.0, max(p_max(p) for p in Pf))
-    if wc[0] > relc * scf * scf:
-        ctx.violation("synthetic:%s:not-canonical" % kind,
+            pba = {}
+            for mm in range(3):
+                pba = p_add(pba, p_mul(p_diff(Pfa[i], mm), p_diff(Pfa[j], mm + 3), N - 1))
+                pba = p_add(pba, p_mul(p_diff(Pfa[i], mm + 3), p_diff(Pfa[j], mm), N - 1))
+            scc = max(scc, p_max(pba))
+    if wc[0] > relc * scc:
+        viol(ctx, "synthetic:%s:not-canonical" % kind,
                       "{Phi_%d, Phi_%d} differs from J by %.3e in a coefficient of degree <= N-1" % (wc[1] + (wc[0],)),
-                      dict(rep, clause="canonical", pair=list(wc[1]), observed=wc[0]))
+                      dict(rep, clause="canonical", pair=list(wc[1]), observed=wc[0], expected="<= %g" % (relc * scc)))
     # 4. inverse o forward = id through degree N
     wi = (0.0, None)
+    sci = 1.0
     for i in range(6):
         unit = {tuple(int(a == i) for a in range(6)): 1 + 0j}
         c = p_add(p_compose(Pi[i], Pf, N), unit, -1.0)
@@ -792,12 +822,13 @@ def direct_case(ctx, case, full, tr, G, ex_f, ex_i, relc=1e-8):
         m = max(p_max(c), p_max(c2))
         if m > wi[0]:
             wi = (m, i)
-    sci = max(1.0, max(p_max(p) for p in Pi)) * scf
+        sci = max(sci, p_max(p_compose(Pia[i], Pfa, N)), p_max(p_compose(Pfa[i], Pia, N)))
     if wi[0] > relc * sci:
-        ctx.violation("synthetic:%s:inverse-o-forward" % kind,
+        viol(ctx, "synthetic:%s:inverse-o-forward" % kind,
                       "component %d of inverse o forward (or forward o inverse) differs from the identity by %.3e in a coefficient of degree <= N" % (wi[1], wi[0]),
-                      dict(rep, clause="forward o inverse = id", component=wi[1], observed=wi[0]))
-    return {"H": abs(worst[1]) / sc, "canon": wc[0] / (scf * scf), "inv": wi[0] / sci, "guard_active": guard_active}
+                      dict(rep, clause="forward o inverse = id", component=wi[1], observed=wi[0], expected="<= %g" % (relc * sci)))
+    scf = math.sqrt(scc)
+    return {"H": abs(worst[1]) / sc, "canon": wc[0] / scc, "inv": wi[0] / sci, "guard_active": guard_active}
 
 
 def direct_synthetic(ctx, cases, store):
@@ -808,7 +839,7 @@ def direct_synthetic(ctx, cases, store):
             if (ci, full) not in store or (ci, full, "fwd", None, False) not in store:
                 continue
             tr, G, el = store[(ci, full)]
-            r = direct_case(ctx, case, full, tr, G, store[(ci, full, "fwd", None, False)], store[(ci, full, "inv", None, False)])
+            r = direct_case(ctx, case, full, tr, G, el, store[(ci, full, "fwd", None, False)], store[(ci, full, "inv", None, False)])
             n += 1
             for k in worst:
                 worst[k] = max(worst[k], r[k])
@@ -886,7 +917,7 @@ def pipeline_checks(ctx, sysname, system, Lk, N, ndir):
                 worst = (float(abs(a[i])), tuple(int(x) for x in E[i]))
     row["bad_partial"] = worst[0] / scale
     if worst[0] > 1e-9 * scale:
-        ctx.violation("pipeline:partial:term-survives",
+        viol(ctx, "pipeline:partial:term-survives",
                       "%s: complex_partial_normal keeps the monomial %r with k0 != k3 (|c| = %.3e, largest coefficient %.3e)" % (tag, worst[1], worst[0], scale),
                       dict(rep, clause="term-removal", monomial=list(worst[1]), observed=worst[0], expected="<= %g" % (1e-9 * scale)))
     scale_f = max(abs(np.asarray(b)).max() if len(b) else 0.0 for b in Hf)
@@ -902,14 +933,14 @@ def pipeline_checks(ctx, sysname, system, Lk, N, ndir):
                 worst = (float(abs(a[i])), tuple(int(x) for x in E[i]))
     row["bad_full"] = worst[0] / scale_f
     if worst[0] > 1e-9 * scale_f:
-        ctx.violation("pipeline:full:term-survives",
+        viol(ctx, "pipeline:full:term-survives",
                       "%s: complex_full_normal keeps the non-resonant monomial %r (|c| = %.3e)" % (tag, worst[1], worst[0]),
                       dict(rep, clause="term-removal-full", monomial=list(worst[1]), observed=worst[0]))
     # quadratic part unchanged
     for nm, Hx in (("partial", Hp), ("full", Hf)):
         dq = float(np.abs(np.asarray(Hx[2]) - np.asarray(Hm[2])).max())
         if dq > 1e-12 * abs(lam):
-            ctx.violation("pipeline:%s:quadratic-part-changed" % nm, "%s: quadratic part changed by %.3e" % (tag, dq), dict(rep, clause="H2-unchanged"))
+            viol(ctx, "pipeline:%s:quadratic-part-changed" % nm, "%s: quadratic part changed by %.3e" % (tag, dq), dict(rep, clause="H2-unchanged"))
     # expansions of the full normal form (the library offers no accessor; computed with its own _lie_expansion)
     psi = gen_f.dynamics.psi
     fwd_f = real_expansion(gen_f.poly_G, N, False)
@@ -948,7 +979,7 @@ def pipeline_checks(ctx, sysname, system, Lk, N, ndir):
             else:
                 slopes[nm].append((float("inf"), pts))     # defect at the rounding floor already at r = 0.32
     if slopes["evaluate"] > 1e-12:
-        ctx.violation("pipeline:evaluate-transform", "%s: _evaluate_transform differs from direct evaluation of the expansions by %.3e" % (tag, slopes["evaluate"]),
+        viol(ctx, "pipeline:evaluate-transform", "%s: _evaluate_transform differs from direct evaluation of the expansions by %.3e" % (tag, slopes["evaluate"]),
                       dict(rep, clause="evaluate"))
     for nm, expo, what in (("H_partial", N + 1, "H_new(z) - H_old(Phi z) (partial normal form)"),
                            ("H_full", N + 1, "H_new(z) - H_old(Phi z) (full normal form)"),
@@ -958,7 +989,7 @@ def pipeline_checks(ctx, sysname, system, Lk, N, ndir):
         row["slope_" + nm] = med
         if med < expo - 0.6:
             pts = [p for s, p in slopes[nm] if s == med][0]
-            ctx.violation("pipeline:scaling:" + nm,
+            viol(ctx, "pipeline:scaling:" + nm,
                           "%s: %s scales like |z|^%.2f, expected exponent >= %d" % (tag, what, med, expo),
                           dict(rep, clause=nm, fitted_exponent=med, expected_exponent=expo, radii_and_defects=[[float(a), float(b)] for a, b in pts]))
     return row
@@ -1021,7 +1052,7 @@ def run(ctx):
     pipelines(ctx)
     ctx.search_ran = True
     ctx.rule = ("synthetic: Hamiltonians lam q1p1 + i om1 q2p2 + i om2 q3p3 (dyadic lam, om; incl. om1 = om2, om1 = 2 om2, lam = 0) + 3..10 random "
-                "Gaussian-dyadic monomials of degree 3..N (N = 3..6 quick, ..8 thorough; small divisors 2^-7; one case with a degree-1 term), both _lie_transform "
+                "Gaussian-dyadic monomials of degree 3..N (N = 3..6 quick, ..8 thorough; small divisors 2^-4), both _lie_transform "
                 "variants, forward/inverse/restricted/sign-overridden expansions, kernels on integer Gaussian blocks incl. divisors at the guard "
                 "threshold; pipelines: L1, L2 of Earth-Moon and further mass ratios, degrees 4..6 (..8 thorough); a case is non-trivial when the "
                 "generating function is non-zero; distinct by (case tag, N, variant, number of generator terms)")
@@ -1044,7 +1075,7 @@ def replay(ctx, rec):
         tr, G, el = real_lie(case, full)
         ex_f = real_expansion(G, case.N, False)
         ex_i = real_expansion(G, case.N, True)
-        r = direct_case(ctx, case, full, tr, G, ex_f, ex_i)
+        r = direct_case(ctx, case, full, tr, G, el, ex_f, ex_i)
         ctx.log("replayed synthetic case: relative defects", r)
         ctx.case(("replay", case.tag), kind="replay")
         ctx.obligations["replay-executed"] = True
